@@ -86,3 +86,26 @@ Definition auto_pid_ok (pid : Z) : Prop := C_startPID <= pid <= 8190 /\ pid <> C
 (* all counters of the payload packets the Muxer emitted on a PID over a run *)
 Definition emitted_ccs (pid : Z) (evs : list (mop * part)) : list Z :=
   concat (map (fun e => payload_ccs pid (muxer_pkts (fst e) (snd e))) evs).
+
+(* ---------------- automatic PIDs over a run (C17) ---------------- *)
+
+Definition is_add (o : mop) : Z := match o with MAdd _ => 1 | _ => 0 end.
+Definition adds (ops : list mop) : Z := fold_right (fun o a => is_add o + a) 0 ops.
+
+(* the PIDs the automatic additions of a run were given, in order: the last stream after each successful
+   AddElementaryStream with ElementaryPID = 0 *)
+Fixpoint auto_pids (s : mstate) (ops : list mop) : list Z :=
+  match ops with
+  | [] => []
+  | o :: r =>
+      let s' := fst (mux_step_part s o) in
+      let p := snd (mux_step_part s o) in
+      (match o with
+       | MAdd es => if (PMTElementaryStream_ElementaryPID es =? 0) && is_ok (pa_res p)
+                    then [PMTElementaryStream_ElementaryPID (last (ms_streams s') zero_PMTElementaryStream)] else []
+       | _ => []
+       end) ++ auto_pids s' r
+  end.
+
+(* 0x1EFE: the PIDs of [startPID, 0x1FFE] without pmtStartPID *)
+Definition max_adds : Z := 7934.
